@@ -31,7 +31,7 @@ func (P) Engine() string { return "E2" }
 func (P) Describe() harness.Description {
 	return harness.Description{
 		MustHit: []string{"bucket_rolled_in_concurrent_section", "rollover_contended", "exactness_checked"},
-		Level: "exploration",
+		Level:   "exploration",
 		Rule: "case = (array geometry, sequential prelude filling the buckets about to be recycled, 2-3 callers (thorough: up to 12) with 1-2 record/read operations each placed around a bucket boundary, tick plan); " +
 			"the seeded scheduler (random walk or PCT) picks the runner at every atomic access, lock and Gosched of the leap array; ticks are enabled only while no in-flight recorder would be stalled >= one bucket length; " +
 			"non-trivial = a bucket was recycled during the concurrent section while another caller was inside an operation; distinct = hash(config, ops, (task, access kind) sequence)",
